@@ -22,6 +22,8 @@ func init() {
 const lruPkg = "github.com/hashicorp/golang-lru"
 
 func runC11(c *eng.Ctx) {
+	c.Rule("R04.1", "K2")
+	ruleAllPolicyAlwaysGoesThroughTheCommitQueue(c)
 	c.Rule("R11.3", "K2")
 	ruleACursorStructIsDecodedIntoOnce(c)
 	// (shared with C05/C08) the cursors stream is compacted: an index rebuild must accept the gaps compaction leaves
